@@ -91,6 +91,21 @@ def wipe_part(res, binary):
 def replay(res, path):
     import json
     r = json.load(open(path))
+    if "measured system calls" in str(r.get("obligation", "")) or "Current_C04w" in str(r.get("obligation", "")):
+        binary = c.build_harness("debug")[0]
+        rc = 0
+        for what, old in (("missing file", None), ("unusable 180-byte file", b"foobarbaz" * 20)):
+            info, why = _wipe.measure_wipe(binary, old)
+            print("ShmWriter::new over a %s: %s %s" % (what, info["ops"] if info else None, why))
+            if info is None or info["writes"] is None or not info["truncated"]:
+                rc = 1
+            else:
+                img = b"".join(info["writes"])
+                print("  image written: %s" % img.hex())
+                if img != bytes.fromhex("4e5a4d410002424348000000" + "00000000") + bytes(56):
+                    rc = 1
+        print("death inside the re-creation of the segment file: %s" % ("VIOLATION (see the case in the replay file)" if rc else "every state it can leave is refused by readers"))
+        return rc
     if "model_execution" in (r.get("case") or {}):
         return C03.replay(res, path)
     return _shm.replay_property("C04", res, path)
